@@ -348,11 +348,10 @@ func sidxScenario(e *simcore.Env, tp *simcore.Tape) {
 		held := false
 		for _, p := range parked {
 			w := 3
-			if q := s.queryOf(p.Actor); q != nil && !q.fin && strings.IndexByte(p.Actor, '/') < 0 || (q != nil && (p.Site == sxPin || p.Site == sxAfterPinR || p.Site == sxScan || p.Site == sxSnapDecRef)) {
-				if q.holdLeft > 0 {
-					q.holdLeft--
-					w, held = 1, true
-				}
+			if q := s.queryOf(p.Actor); q != nil && p.Site != sxRemoval && q.holdLeft > 0 {
+				// a held query: maintenance is favoured over it for a while
+				q.holdLeft--
+				w, held = 1, true
 			}
 			options = append(options, option{p: p, w: w})
 		}
